@@ -251,6 +251,14 @@ C03_EXTRA = (" Binding B: every Environment operation of ~1 200 generated progra
              "frame is a new child of the frame the function was created in, a definition binds in the executing frame, "
              "an assignment updates and a lookup reads the nearest enclosing binding.")
 
+C04_EXTRA = (" Binding B: every NodeIf / NodeFor / NodeWhile and every function body of ~1 500 generated programs, "
+             "17 hand-written programs over sets / maps / strings / destructured entries and the repository's own ~760 test "
+             "programs (library code included) is wrapped in logging proxies after parsing; Flow_Trace.tla validates the "
+             "~37k events against the automaton of each construct: conditions in order up to the first TRUE one and exactly "
+             "that branch; list elements and characters in order, set elements and map keys in ascending order (int and "
+             "string keys; other kinds counted as unchecked), each once; break consumed by the innermost loop, return passed "
+             "on, the while condition re-tested before every iteration; a call yields the returned value.")
+
 NOT_YET = "check not built yet in this round (planned, see DESIGN.md section 4)"
 
 
@@ -265,6 +273,10 @@ def main():
             mods = mods + ["Env_Trace.tla"]
             text = text + C03_EXTRA
             tech = tech + "; TLC trace validation (Env_Trace) of environment-chain events recorded from the real interpreter"
+        if pid == "C04":
+            mods = mods + ["Flow_Trace.tla"]
+            text = text + C04_EXTRA
+            tech = tech + "; TLC trace validation (Flow_Trace) of control-flow events recorded from the real evaluator"
         if pid == "C05":
             mods = mods + ["Block_Trace.tla"]
             text = text + C05_EXTRA
